@@ -32,7 +32,7 @@ def mean_cases(rng, D, N, order):
     out.append(("KuramotoSivashinsky", st.KuramotoSivashinsky(D, L * 6, N, dt, order=order), 1))
     out.append(("CahnHilliard", rea.CahnHilliard(D, L, N, dt, order=order), 1))
     if D == 2:
-        out.append(("NavierStokesVorticity", st.NavierStokesVorticity(2, L, N, dt, diffusivity=nu, order=order), 1))
+        out.append(("NavierStokesVorticity", st.NavierStokesVorticity(2, L, N, dt, diffusivity=nu, vorticity_convection_scale=(b if abs(b) > 0.1 else 1.7), order=order), 1))
     if D == 3:
         out.append(("NavierStokesVelocity", st.NavierStokesVelocity(3, L, N, dt, diffusivity=nu, order=order), 3))
     return out
@@ -111,7 +111,7 @@ def probe_no_work(D, N, seed, orszag=False):
     if D == 2:
         w = _band_state(rng, 1, 2, N, orszag=orszag)
         w = w - w.mean()
-        f = nf.VorticityConvection2d(2, N, convection_scale=1.0, derivative_operator=dop, dealiasing_fraction=2 / 3)
+        f = nf.VorticityConvection2d(2, N, convection_scale=float(rng.choice([1.0, -2.0, 0.5, 3.0])), derivative_operator=dop, dealiasing_fraction=2 / 3)
         wh = sp.fft(jnp.asarray(w))
         nl = np.asarray(sp.ifft(f(wh), num_spatial_dims=2, num_points=N))
         lap = np.asarray(sp.build_laplace_operator(dop))
